@@ -74,7 +74,7 @@ EXTRA={
             '//@ ensures internal [C03] reply: gMoved ==> output.data == respBulkString(element)',
             '//@ assertbefore "uk.elements = 1" [C03] taken: item == ite(srcLeft, gSrcHead, gSrcTail) && item.owner == nil && element == item.element',
             '//@ ensures [C11] wake.one: gMoved ==> gWakeRequested == 1 && gWakeKey == destKeyName'],
- 'scan': ['//@ requires free tablesize: dictSized(dsc.ds.data)', '//@ touches C17'],
+ 'scan': ['//@ requires free tablesize: dictSized(dsc.ds.data)', '//@ touches C17', '//@ requires [C17,C13] count.positive: count >= 1', '//@ requires !scanStarted'],
  'lpos': ['//@ ghostbefore "pos := 0" : gMax0 = maxLength',
             '//@ ghostbefore "pos := list.count - 1" : gMax0 = maxLength',
             '//@ ghostbefore "pos := 0" : gRank0 = rank',
@@ -88,8 +88,8 @@ EXTRA={
             '//@ requires [C13] rank.norm: rank >= 0 && count >= 0 && maxLength >= 0'],
  'restore': ['//@ ensures internal [C06,C13] restored.string: output.data == rstrOK ==> mutated && flagHasOne(newSk.flags, FLAG_KEY_TYPE_STRING) && istype(newSk.payload, []byte) && len(unbox(newSk.payload, []byte)) == len(serializedData) - 14',
             '//@ ensures [C06] refused.inert: output.data != rstrOK ==> !mutated'],
- 'hashTableScan': ['//@ touches C17'],
- 'setScan': ['//@ touches C17'],
+ 'hashTableScan': ['//@ touches C17', '//@ requires [C17,C13] count.positive: count >= 1', '//@ requires !scanStarted'],
+ 'setScan': ['//@ touches C17', '//@ requires [C17,C13] count.positive: count >= 1', '//@ requires !scanStarted'],
  'lmpop': ['//@ loop "for _, keyName := range keyNames" invariant [C06] nomut: !mutated'],
  'addInt': ['//@ ghostafter "value, err = strconv.ParseInt" : gParsed = value',
             '//@ ghostafter "value, err = strconv.ParseInt" : gParsedOK = (err == nil)',
